@@ -2,3 +2,4 @@ import MatidProps.C19
 import MatidProps.C14
 import MatidProps.C15
 import MatidProps.C12
+import MatidProps.C08
